@@ -259,7 +259,7 @@ def run(prog: Program, chk: Check):
              "array members are constructed per element", "array fields are emitted as `Array(n).fill(f())`: one object shared by all elements when f is a struct/message factory")
 
     # ---- T branch type agreement --------------------------------------------------------------------------------------
-    T = chk.rule("C15-T", "in Parser.get_ctype_cls every branch assigns a ctypes *type* to the element variable (never a size)", 3,
+    T = chk.rule("C15-T", "in Parser.get_ctype_cls every branch assigns a ctypes *type* to the element variable (never a size)", 2,
                  "an int multiplied by the length / stored in _fields_ makes the parser's own size check crash on an accepted definition")
     gc = prog.func(PAR, "Parser.get_ctype_cls")
     # the variable used as element type: `X * (field.length)` / appended bare
